@@ -339,6 +339,10 @@ def run_random(ctx, spec):
             if len(names) < 3:
                 break
             r = rng.random()
+            # (every fourth sequence starts with a partial MINC whose selection is given as blocks of a copy)
+            force_twin = step == 0 and it % 4 == 1
+            if force_twin:
+                r = 0.75
             op = None
             with ctx.guard(case, where='random') as gd:
                 if r < 0.12:
@@ -498,12 +502,23 @@ def run_random(ctx, spec):
                 elif r < 0.80 and g.num_blocks < 150 and all(not b.name[0].isdigit() for b in g.blocklist):
                     nf = rng.randint(2, 4)
                     vf = [rng.uniform(0.05, 1.0) for _ in range(nf)]
-                    blocks = None if rng.random() < 0.5 else rng.sample(
+                    blocks = None if (rng.random() < 0.5 and not force_twin) else rng.sample(
                         [b.name for b in g.blocklist if not b.atmosphere], max(1, len(names) // 3))
                     sel = blocks if blocks else [b.name for b in g.blocklist]
                     if len(set(n[1:] for n in sel)) == len(sel):
                         op = ('minc', vf, 'partial' if blocks else 'full')
-                        g.minc(vf, spacing=rng.uniform(5, 100), num_fracture_planes=rng.randint(1, 3), blocks=blocks)
+                        barg = blocks
+                        if blocks and (rng.random() < 0.5 or force_twin):
+                            # the selection as block objects: the grid's own, or the equally named ones of a copy made
+                            # before (blocks are selected by name, whatever object carries it)
+                            if rng.random() < 0.5 or force_twin:
+                                import copy as _copy
+                                twin = _copy.deepcopy(g)
+                                barg = [twin.block[n] for n in blocks]
+                                ctx.count('minc_selections_given_as_blocks_of_a_copy')
+                            else:
+                                barg = [g.block[n] for n in blocks]
+                        g.minc(vf, spacing=rng.uniform(5, 100), num_fracture_planes=rng.randint(1, 3), blocks=barg)
                     # (else: two blocks whose default matrix-block names coincide - the documented outcome is the loud failure
                     #  exercised by the clashing-names operation above, not something to run into here)
                 elif r < 0.86:
